@@ -283,6 +283,131 @@ Section ParamShelf.
       + apply all_bindings_two. exists w, s. repeat split; [now apply in_universe_weight with s|apply in_universe_shelf; now apply shelf_id_of with w].
       + cbn [forallb cond_true]. rewrite TVl. cbn. rewrite andb_true_r. apply andb_true_iff. split; [now apply holds_host_In|now apply is_shelf_In].
   Qed.
+
+  (* the <fn> weight where a room L hosts a shelf   (values, not instances: equal weights count once) *)
+  Lemma passive_weight_bound f l r0 :
+    nohash l -> sassoc l b = Some r0 ->
+    let g := {| g_fn := f; g_form := FPassiveWeight; g_side := Some KRoom; g_label := Some l; g_dlabel := None; g_filter := None |} in
+    exists t, compile_aggr 1 g = Some t /\ agg_eval sp I b t = Some (agg_of sp I b g).
+  Proof.
+    intros Hl Hr0. cbv zeta. destruct (fn_tables f) as (op & sym & Hop & Hsym & Hfn). unfold compile_aggr. cbn [g_fn g_form g_side g_label g_dlabel g_filter].
+    rewrite Hop. eexists. split; [reflexivity|]. unfold agg_eval. cbn [t_op]. rewrite Hsym, Hfn. f_equal. unfold agg_of. cbn [g_fn g_form].
+    change (lab_or None (fresh 1 "d")) with "#1d". change (fresh 1 "v") with "#1v". cbn [filter_conds g_filter app t_conds t_tuple].
+    assert (L : filter (fun v => match sassoc v b with Some _ => false | None => true end)
+                       (agg_vars {| t_op := op; t_atom_tuple := false; t_tuple := [TV "#1d"]; t_conds := [CHost (TV l) (TV "#1v"); CShelf (TV "#1v") (TV "#1d")] |})
+                = ["#1d"; "#1v"]).
+    { unfold agg_vars. cbn [t_tuple t_conds fold_left term_vars cond_vars]. unfold add_var.
+      repeat (progress (cbn [mem_string]; rewrite ?(nohash_neq l "1d" Hl), ?(nohash_neq l "1v" Hl), ?(nohash_neq' l "1d" Hl), ?(nohash_neq' l "1v" Hl), ?String.eqb_refl;
+                        cbn [String.eqb Ascii.eqb Bool.eqb orb app])).
+      cbn [filter]. pose proof Hr0 as Hr0u. unfold sassoc in Hr0u.
+      pose proof (Hb "1d") as Hbu. unfold sassoc in Hbu. pose proof (Hb "1v") as Hbv. unfold sassoc in Hbv.
+      rewrite ?(Hb "1d"), ?(Hb "1v"), ?Hbu, ?Hbv, ?Hr0, ?Hr0u. reflexivity. }
+    rewrite L. apply agg_value_set. intros t. rewrite !in_map_iff.
+    assert (TVl : forall x y, term_val ([("#1d", x); ("#1v", y)] ++ b)%list (TV l) = Some (Some r0)).
+    { intros x y. cbn [term_val app sassoc assoc]. rewrite (nohash_neq l "1d" Hl), (nohash_neq l "1v" Hl). fold (@sassoc Z l b). now rewrite Hr0. }
+    split.
+    - intros (l' & <- & Hl'). apply filter_In in Hl' as [Hl' Hsat]. apply all_bindings_two in Hl' as (x & y & Hx & Hy & ->).
+      cbn [forallb cond_true] in Hsat. rewrite TVl in Hsat. cbn in Hsat. rewrite andb_true_r in Hsat. apply andb_true_iff in Hsat as [Hh Hsw].
+      apply holds_host_In in Hh. apply is_shelf_In in Hsw. destruct (Hadm r0 y Hh) as [Hr _].
+      exists (r0, (y, x)). split; [reflexivity|]. apply filter_In. split; [apply triples_In; repeat split; auto|].
+      unfold qualifies. cbn [g_side g_label g_filter colval fst]. rewrite Hr0, Z.eqb_refl. reflexivity.
+    - intros ([r [s w]] & <- & Hin). apply filter_In in Hin as [Hin Hq]. apply triples_In in Hin as (Hr & Hs & Hh).
+      unfold qualifies in Hq. cbn [g_side g_label g_filter colval fst] in Hq. rewrite Hr0, andb_true_r in Hq. apply Z.eqb_eq in Hq. subst r.
+      exists [("#1d", w); ("#1v", s)]. split; [reflexivity|]. apply filter_In. split.
+      + apply all_bindings_two. exists w, s. repeat split; [now apply in_universe_weight with s|apply in_universe_shelf; now apply shelf_id_of with w].
+      + cbn [forallb cond_true]. rewrite TVl. cbn. rewrite andb_true_r. apply andb_true_iff. split; [now apply holds_host_In|now apply is_shelf_In].
+  Qed.
+
+  (* the number of host occurrences *)
+  Lemma entity_unbound f :
+    let g := {| g_fn := f; g_form := FEntity; g_side := None; g_label := None; g_dlabel := None; g_filter := None |} in
+    exists t, compile_aggr 1 g = Some t /\ agg_eval sp I b t = Some (agg_of sp I b g).
+  Proof.
+    cbv zeta. destruct (fn_tables f) as (op & sym & Hop & Hsym & Hfn). unfold compile_aggr. cbn [g_fn g_form g_side g_label g_dlabel g_filter].
+    rewrite Hop. eexists. split; [reflexivity|]. unfold agg_eval. cbn [t_op]. rewrite Hsym, Hfn. f_equal. unfold agg_of. cbn [g_fn g_form].
+    change (fresh 1 "a") with "#1a". change (fresh 1 "b") with "#1b". cbn [t_conds t_tuple].
+    assert (L : filter (fun v => match sassoc v b with Some _ => false | None => true end)
+                       (agg_vars {| t_op := op; t_atom_tuple := true; t_tuple := [TV "#1a"; TV "#1b"]; t_conds := [CHost (TV "#1a") (TV "#1b")] |})
+                = ["#1a"; "#1b"]).
+    { cbn. now rewrite (Hb "1a"), (Hb "1b"). }
+    rewrite L. apply agg_value_set. intros t. rewrite !in_map_iff. split.
+    - intros (l & <- & Hl). apply filter_In in Hl as [Hl Hsat]. apply all_bindings_two in Hl as (x & y & Hx & Hy & ->).
+      cbn in Hsat. rewrite andb_true_r in Hsat. apply holds_host_In in Hsat.
+      destruct (Hadm x y Hsat) as [Hr Hs]. apply in_map_iff in Hs as ([s' w] & Es & Hsw). cbn in Es. subst s'.
+      exists (x, (y, w)). split; [reflexivity|]. apply filter_In. split; [apply triples_In; repeat split; auto|reflexivity].
+    - intros ([r [s w]] & <- & Hin). apply filter_In in Hin as [Hin _]. apply triples_In in Hin as (Hr & Hs & Hh).
+      exists [("#1a", r); ("#1b", s)]. split; [reflexivity|]. apply filter_In. split.
+      + apply all_bindings_two. exists r, s. repeat split; [now apply in_universe_room|apply in_universe_shelf; now apply shelf_id_of with w].
+      + cbn. rewrite andb_true_r. now apply holds_host_In.
+  Qed.
+
+  (* the number of host occurrences with room id L *)
+  Lemma entity_room_bound f l r0 :
+    nohash l -> sassoc l b = Some r0 ->
+    let g := {| g_fn := f; g_form := FEntity; g_side := Some KRoom; g_label := Some l; g_dlabel := None; g_filter := None |} in
+    exists t, compile_aggr 1 g = Some t /\ agg_eval sp I b t = Some (agg_of sp I b g).
+  Proof.
+    intros Hl Hr0. cbv zeta. destruct (fn_tables f) as (op & sym & Hop & Hsym & Hfn). unfold compile_aggr. cbn [g_fn g_form g_side g_label g_dlabel g_filter].
+    rewrite Hop. eexists. split; [reflexivity|]. unfold agg_eval. cbn [t_op]. rewrite Hsym, Hfn. f_equal. unfold agg_of. cbn [g_fn g_form].
+    change (fresh 1 "b") with "#1b". cbn [t_conds t_tuple].
+    assert (L : filter (fun v => match sassoc v b with Some _ => false | None => true end)
+                       (agg_vars {| t_op := op; t_atom_tuple := true; t_tuple := [TV l; TV "#1b"]; t_conds := [CHost (TV l) (TV "#1b")] |}) = ["#1b"]).
+    { unfold agg_vars. cbn [t_tuple t_conds fold_left term_vars cond_vars]. unfold add_var.
+      repeat (progress (cbn [mem_string]; rewrite ?(nohash_neq l "1b" Hl), ?(nohash_neq' l "1b" Hl), ?String.eqb_refl; cbn [String.eqb Ascii.eqb Bool.eqb orb app])).
+      cbn [filter]. pose proof Hr0 as Hr0u. unfold sassoc in Hr0u. pose proof (Hb "1b") as Hbu. unfold sassoc in Hbu.
+      rewrite ?(Hb "1b"), ?Hbu, ?Hr0, ?Hr0u. reflexivity. }
+    rewrite L, all_bindings_one. apply agg_value_set. intros t. rewrite !in_map_iff.
+    assert (TVl : forall x, term_val ([("#1b", x)] ++ b)%list (TV l) = Some (Some r0)).
+    { intros x. cbn [term_val app sassoc assoc]. rewrite (nohash_neq l "1b" Hl). fold (@sassoc Z l b). now rewrite Hr0. }
+    split.
+    - intros (l' & <- & Hl'). apply filter_In in Hl' as [Hl' Hsat]. apply in_map_iff in Hl' as (x & <- & Hx).
+      cbn [forallb cond_true] in Hsat. rewrite TVl in Hsat. cbn in Hsat. rewrite andb_true_r in Hsat. apply holds_host_In in Hsat.
+      destruct (Hadm r0 x Hsat) as [Hr Hs]. apply in_map_iff in Hs as ([s' w] & Es & Hsw). cbn in Es. subst s'.
+      exists (r0, (x, w)). split.
+      + cbn [map]. rewrite TVl. reflexivity.
+      + apply filter_In. split; [apply triples_In; repeat split; auto|]. unfold qualifies. cbn [g_side g_label g_filter colval fst]. rewrite Hr0, Z.eqb_refl. reflexivity.
+    - intros ([r [s w]] & <- & Hin). apply filter_In in Hin as [Hin Hq]. apply triples_In in Hin as (Hr & Hs & Hh).
+      unfold qualifies in Hq. cbn [g_side g_label g_filter colval fst] in Hq. rewrite Hr0, andb_true_r in Hq. apply Z.eqb_eq in Hq. subst r.
+      exists [("#1b", s)]. split.
+      + cbn [map]. rewrite TVl. reflexivity.
+      + apply filter_In. split.
+        * apply in_map_iff. exists s. split; [reflexivity|]. apply in_universe_shelf. now apply shelf_id_of with w.
+        * cbn [forallb cond_true]. rewrite TVl. cbn. rewrite andb_true_r. now apply holds_host_In.
+  Qed.
+
+  (* the number of host occurrences with shelf id L *)
+  Lemma entity_shelf_bound f l s0 :
+    nohash l -> sassoc l b = Some s0 ->
+    let g := {| g_fn := f; g_form := FEntity; g_side := Some KShelf; g_label := Some l; g_dlabel := None; g_filter := None |} in
+    exists t, compile_aggr 1 g = Some t /\ agg_eval sp I b t = Some (agg_of sp I b g).
+  Proof.
+    intros Hl Hr0. cbv zeta. destruct (fn_tables f) as (op & sym & Hop & Hsym & Hfn). unfold compile_aggr. cbn [g_fn g_form g_side g_label g_dlabel g_filter].
+    rewrite Hop. eexists. split; [reflexivity|]. unfold agg_eval. cbn [t_op]. rewrite Hsym, Hfn. f_equal. unfold agg_of. cbn [g_fn g_form].
+    change (fresh 1 "a") with "#1a". cbn [t_conds t_tuple].
+    assert (L : filter (fun v => match sassoc v b with Some _ => false | None => true end)
+                       (agg_vars {| t_op := op; t_atom_tuple := true; t_tuple := [TV "#1a"; TV l]; t_conds := [CHost (TV "#1a") (TV l)] |}) = ["#1a"]).
+    { unfold agg_vars. cbn [t_tuple t_conds fold_left term_vars cond_vars]. unfold add_var.
+      repeat (progress (cbn [mem_string]; rewrite ?(nohash_neq l "1a" Hl), ?(nohash_neq' l "1a" Hl), ?String.eqb_refl; cbn [String.eqb Ascii.eqb Bool.eqb orb app])).
+      cbn [filter]. pose proof Hr0 as Hr0u. unfold sassoc in Hr0u. pose proof (Hb "1a") as Hbu. unfold sassoc in Hbu.
+      rewrite ?(Hb "1a"), ?Hbu, ?Hr0, ?Hr0u. reflexivity. }
+    rewrite L, all_bindings_one. apply agg_value_set. intros t. rewrite !in_map_iff.
+    assert (TVl : forall x, term_val ([("#1a", x)] ++ b)%list (TV l) = Some (Some s0)).
+    { intros x. cbn [term_val app sassoc assoc]. rewrite (nohash_neq l "1a" Hl). fold (@sassoc Z l b). now rewrite Hr0. }
+    split.
+    - intros (l' & <- & Hl'). apply filter_In in Hl' as [Hl' Hsat]. apply in_map_iff in Hl' as (x & <- & Hx).
+      cbn [forallb cond_true] in Hsat. rewrite TVl in Hsat. cbn in Hsat. rewrite andb_true_r in Hsat. apply holds_host_In in Hsat.
+      destruct (Hadm x s0 Hsat) as [Hr Hs]. apply in_map_iff in Hs as ([s' w] & Es & Hsw). cbn in Es. subst s'.
+      exists (x, (s0, w)). split.
+      + cbn [map]. rewrite TVl. reflexivity.
+      + apply filter_In. split; [apply triples_In; repeat split; auto|]. unfold qualifies. cbn [g_side g_label g_filter colval fst snd]. rewrite Hr0, Z.eqb_refl. reflexivity.
+    - intros ([r [s w]] & <- & Hin). apply filter_In in Hin as [Hin Hq]. apply triples_In in Hin as (Hr & Hs & Hh).
+      unfold qualifies in Hq. cbn [g_side g_label g_filter colval fst snd] in Hq. rewrite Hr0, andb_true_r in Hq. apply Z.eqb_eq in Hq. subst s.
+      exists [("#1a", r)]. split.
+      + cbn [map]. rewrite TVl. reflexivity.
+      + apply filter_In. split.
+        * apply in_map_iff. exists r. split; [reflexivity|]. now apply in_universe_room.
+        * cbn [forallb cond_true]. rewrite TVl. cbn. rewrite andb_true_r. now apply holds_host_In.
+  Qed.
 End ParamShelf.
 
 (* ------------------------------------------------------------------ end to end, for sentences without outer variables *)
@@ -344,35 +469,40 @@ Lemma hash_free_nil : hash_free []. Proof. intros s. reflexivity. Qed.
    "the <fn> room id that host a shelf", compared with a number or a pair of numbers, required or prohibited:
    the emitted constraint is violated exactly by the interpretations the READING excludes *)
 Theorem unbound_aggregate_sentence_correct sp I f form :
-  adm sp I -> In form [FParamShelf; FParamRoom; FActive] ->
+  adm sp I -> In form [FParamShelf; FParamRoom; FActive; FEntity] ->
   a_agg sp = {| g_fn := f; g_form := form; g_side := None; g_label := None; g_dlabel := None; g_filter := None |} ->
   a_whenever sp = [] -> a_owhere sp = None -> (match a_cmp sp with CPhrase _ _ | CBetween _ _ => True | _ => False end) ->
   forall r, compile sp = Some r -> rule_violated sp I r = negb (reading sp I).
 Proof.
   intros Hadm Hform Ha Hwh How Hcmp r Hr.
-  destruct Hform as [<-|[<-|[<-|[]]]].
+  destruct Hform as [<-|[<-|[<-|[<-|[]]]]].
   - destruct (param_shelf_unbound sp I Hadm [] hash_free_nil f) as (t & Ht & Hev).
     exact (unbound_generic sp I _ t Ha eq_refl eq_refl Hwh How Hcmp Ht Hev r Hr).
   - destruct (param_room_unbound sp I Hadm [] hash_free_nil f) as (t & Ht & Hev).
     exact (unbound_generic sp I _ t Ha eq_refl eq_refl Hwh How Hcmp Ht Hev r Hr).
   - destruct (active_unbound sp I Hadm [] hash_free_nil f) as (t & Ht & Hev).
     exact (unbound_generic sp I _ t Ha eq_refl eq_refl Hwh How Hcmp Ht Hev r Hr).
+  - destruct (entity_unbound sp I Hadm [] hash_free_nil f) as (t & Ht & Hev).
+    exact (unbound_generic sp I _ t Ha eq_refl eq_refl Hwh How Hcmp Ht Hev r Hr).
 Qed.
 
 (* the aggregate term of a sentence form with an outer label L evaluates, under any binding of L, to the value the READING gives *)
 Theorem bound_aggregate_term_value sp I b f l v form side :
   adm sp I -> hash_free b -> nohash l -> sassoc l b = Some v ->
-  In (form, side) [(FParamShelf, KRoom); (FParamRoom, KShelf); (FActive, KShelf); (FPassiveShelf, KRoom); (FPassiveWeightEach, KRoom)] ->
+  In (form, side) [(FParamShelf, KRoom); (FParamRoom, KShelf); (FActive, KShelf); (FPassiveShelf, KRoom); (FPassiveWeightEach, KRoom); (FPassiveWeight, KRoom); (FEntity, KRoom); (FEntity, KShelf)] ->
   let g := {| g_fn := f; g_form := form; g_side := Some side; g_label := Some l; g_dlabel := None; g_filter := None |} in
   exists t, compile_aggr 1 g = Some t /\ agg_eval sp I b t = Some (agg_of sp I b g).
 Proof.
   intros Hadm Hb Hl Hv Hin. cbv zeta.
-  destruct Hin as [E|[E|[E|[E|[E|[]]]]]]; injection E as <- <-.
+  destruct Hin as [E|[E|[E|[E|[E|[E|[E|[E|[]]]]]]]]]; injection E as <- <-.
   - exact (param_shelf_bound sp I Hadm b Hb f l v Hl Hv).
   - exact (param_room_bound sp I Hadm b Hb f l v Hl Hv).
   - exact (active_bound sp I Hadm b Hb f l v Hl Hv).
   - exact (passive_shelf_bound sp I Hadm b Hb f l v Hl Hv).
   - exact (passive_weight_each_bound sp I Hadm b Hb f l v Hl Hv).
+  - exact (passive_weight_bound sp I Hadm b Hb f l v Hl Hv).
+  - exact (entity_room_bound sp I Hadm b Hb f l v Hl Hv).
+  - exact (entity_shelf_bound sp I Hadm b Hb f l v Hl Hv).
 Qed.
 
 (* ------------------------------------------------------------------ end to end, with one outer variable *)
@@ -467,7 +597,7 @@ Qed.
 
 Theorem bound_aggregate_sentence_correct sp I f l form side :
   adm sp I -> nohash l ->
-  In (form, side) [(FParamShelf, KRoom); (FParamRoom, KShelf); (FActive, KShelf); (FPassiveShelf, KRoom); (FPassiveWeightEach, KRoom)] ->
+  In (form, side) [(FParamShelf, KRoom); (FParamRoom, KShelf); (FActive, KShelf); (FPassiveShelf, KRoom); (FPassiveWeightEach, KRoom); (FPassiveWeight, KRoom); (FEntity, KRoom); (FEntity, KShelf)] ->
   a_agg sp = {| g_fn := f; g_form := form; g_side := Some side; g_label := Some l; g_dlabel := None; g_filter := None |} ->
   a_owhere sp = None -> (match a_cmp sp with CPhrase _ _ | CBetween _ _ => True | _ => False end) ->
   ((passive form = false /\ a_whenever sp = [(l, side)]) \/ (passive form = true /\ (a_whenever sp = [(l, KRoom)] \/ a_whenever sp = []))) ->
@@ -476,7 +606,7 @@ Proof.
   intros Hadm Hl Hin Ha How Hcmp Hlay r Hr.
   set (g := {| g_fn := f; g_form := form; g_side := Some side; g_label := Some l; g_dlabel := None; g_filter := None |}) in *.
   assert (Hside : side <> KWeight).
-  { destruct Hin as [E|[E|[E|[E|[E|[]]]]]]; injection E as <- <-; discriminate. }
+  { destruct Hin as [E|[E|[E|[E|[E|[E|[E|[E|[]]]]]]]]]; injection E as <- <-; discriminate. }
   assert (Hval : forall x, exists t, compile_aggr 1 g = Some t /\ agg_eval sp I [(l, x)] t = Some (agg_of sp I [(l, x)] g)).
   { intros x. apply (bound_aggregate_term_value sp I [(l, x)] f l x form side Hadm (hash_free_single l x Hl) Hl); [|exact Hin].
     unfold sassoc. cbn [assoc]. now rewrite String.eqb_refl. }
@@ -486,5 +616,5 @@ Proof.
   apply (bound_generic sp I g t l side Ha eq_refl Hl Hside How Hcmp); [|exact Ht|exact Hev|exact Hr].
   cbn [g g_form]. destruct Hlay as [[Hp Hw]|[Hp Hw]]; [left; now split|right].
   split; [exact Hp|]. split; [|exact Hw].
-  destruct Hin as [E|[E|[E|[E|[E|[]]]]]]; injection E as <- <-; try reflexivity; discriminate Hp.
+  destruct Hin as [E|[E|[E|[E|[E|[E|[E|[E|[]]]]]]]]]; injection E as <- <-; try reflexivity; discriminate Hp.
 Qed.
